@@ -41,12 +41,14 @@ class _Subprocess:
     CalledProcessError = _real_subprocess.CalledProcessError
     mode = 0
     code = 0
+    partial = ""
     @classmethod
     def run(cls, argv, **kw):
         if cls.mode == 1:
             raise FileNotFoundError(argv[0])
         if cls.mode == 2:
-            raise _real_subprocess.CalledProcessError(cls.code, argv, "", "bad format")
+            # a disassembler that fails may have written a banner / a partial listing to stdout already
+            raise _real_subprocess.CalledProcessError(cls.code, argv, cls.partial, "bad format")
         return _Result(cls.code)
 _sd.subprocess = _Subprocess
 _sd.CalledProcessError = _real_subprocess.CalledProcessError
@@ -76,12 +78,13 @@ class _Consumer:
 def harnesses(t):
     T = 60 if t == "quick" else 240
     hs = []
-    hs.append(ch.H("c17/F1_disassembler", '''def f1(mode: int, code: int, exists: bool) -> bool:
+    hs.append(ch.H("c17/F1_disassembler", '''def f1(mode: int, code: int, exists: bool, partial: str) -> bool:
     """
-    pre: 0 <= mode <= 2 and -3 <= code <= 300
+    pre: 0 <= mode <= 2 and -3 <= code <= 300 and len(partial) <= 2
     post: _
     """
     _Subprocess.mode, _Subprocess.code, _Path.exists_value = mode, code, exists
+    _Subprocess.partial = partial
     _Parser.parsed = 0
     _Consumer.finalized = 0
     raised = None
@@ -94,7 +97,7 @@ def harnesses(t):
         return raised is None and _Parser.parsed == 1 and _Consumer.finalized == 1
     # any fault: an exception, and the listing is neither parsed nor matched
     return raised is not None and _Parser.parsed == 0 and _Consumer.finalized == 0
-''', timeout=T, prelude=PRE, key="F1_disassembler", note="symbolic fault kind, exit code, file existence"))
+''', timeout=T, prelude=PRE, key="F1_disassembler", note="symbolic fault kind, exit code, file existence, partial stdout of a failing disassembler"))
     hs.append(ch.H("c17/F2_open", '''def f2(k_missing: bool, k_perm: bool, k_dir: bool, k_decode: bool) -> bool:
     """
     post: _
